@@ -224,4 +224,104 @@ def k4(ctx, kr):
     for f in kr.findings: f.role = f.role.replace('C05/K5/', 'C11/K4/')
     kr.outside = list(kr.outside) + ['codespan\'s own line/column computation (the reference is its documented convention)']
 
-KERNELS = [k3, k4]
+# ---------------------------------------------------------------------------------------------- K5 a document opened from the workspace folder replaces the copy loaded from disk
+@kernel('K5 lsp.opened_document_replaces_workspace_copy')
+def k5(ctx, kr):
+    P = ctx.program(CR)
+    k_init = [k for k in P.items if k[0] == 'ironplcc' and re.fullmatch(r'lsp_project::<impl at [^>]*>::initialize', k[1])]
+    k_change = [k for k in P.items if k[0] == 'ironplcc' and re.fullmatch(r'lsp_project::<impl at [^>]*>::change_text_document', k[1])]
+    k_new = [k for k in P.items if k[0] == 'ironplcc' and re.fullmatch(r'lsp_project::<impl at [^>]*>::new', k[1])]
+    if len(k_init) != 1 or len(k_change) != 1 or len(k_new) != 1: kr.inconc('LspProject::{new, initialize, change_text_document}: %d/%d/%d candidates' % (len(k_new), len(k_init), len(k_change))); return
+    WS = '/ws/link'            # the folder as the client names it; it may be a symbolic link to /real/dir
+    st = {}
+    def text_of(M, v):
+        while isinstance(v, Ref): v = M.deref(v)
+        if isinstance(v, Agg) and v.name.split('::')[-1] in ('DirEntry', 'FileId', 'Url'): v = v.f[0]
+        while isinstance(v, Ref): v = M.deref(v)
+        return v.conc() if isinstance(v, Str) else None
+    def st_canon(M, fr, c, a):
+        # std::fs::canonicalize resolves symbolic links: for a linked folder the result is another path
+        p_ = text_of(M, a[0]); st['canon_calls'] += 1
+        if M.branch(st['is_link']): return ok(Str(p_.replace(WS, '/real/dir')))
+        return ok(Str(p_))
+    def st_read_dir(M, fr, c, a):
+        d = text_of(M, a[0]); return ok(IterV([ok(Agg('DirEntry', [Str(d + '/a.st')])), ok(Agg('DirEntry', [Str(d + '/b.st')]))]))
+    def st_try_from(M, fr, c, a):
+        fid = M.deref(a[0]); return ok(LSP.mkstruct(P, 'Source', file_id=deep_clone(fid), data=Str('text on disk'), library=none()))
+    def st_to_path(M, fr, c, a):
+        t = text_of(M, a[0]); return ok(Str(t[len('file://'):])) if t and t.startswith('file:///') else err(UNIT)
+    def st_fid(M_, fr, c, a):
+        v = M_.deref(a[0]); v = v.f[0] if isinstance(v, Agg) else v
+        while isinstance(v, Ref): v = M_.deref(v)
+        return Agg('FileId', [Str(list(v.b))])
+    stubs = {r'^std::fs::canonicalize(::<.*>)?$': st_canon, r'^std::fs::read_dir(::<.*>)?$': st_read_dir, r'^std::fs::DirEntry::path$': lambda M, fr, c, a: M.deref(a[0]).f[0],
+             r'^source::Source::try_from_file_id$': st_try_from, r'^lsp_types::Url::to_file_path$': st_to_path, r'FileId::from_path$|FileId::from_dir_entry$': st_fid,
+             r'^<std::path::PathBuf as std::ops::Deref>::deref$|^std::path::PathBuf::as_path$|^std::path::Path::to_path_buf$|^<std::path::PathBuf as std::convert::AsRef<std::path::Path>>::as_ref$': lambda M, fr, c, a: a[0],
+             r'^std::path::Path::display$': lambda M, fr, c, a: Str('path')}
+    M = Machine(P, stubs=stubs, max_steps=20_000_000)
+    def entry(M):
+        st['is_link'] = M.fresh_bool('workspace_folder_is_a_symbolic_link'); st['canon_calls'] = 0
+        proj = M.call_fn(k_new[0], [_project_value(P, {})])
+        pr_ = Ref(Cell(proj))
+        folder = LSP.mkstruct(P, 'WorkspaceFolder', **{'uri': Agg('Url', [Str('file://' + WS)]), 'name': Str('ws')})
+        M.call_fn(k_init[0], [pr_, Ref(Cell(folder))])
+        M.call_fn(k_change[0], [pr_, Ref(Cell(Agg('Url', [Str('file://' + WS + '/a.st')]))), Str('text in the editor')])
+        return proj
+    def on_path(M, pr):
+        kr.paths += 1
+        if pr.inconclusive: kr.inconc(pr.inconclusive); return
+        kr.nontrivial += 1
+        s = z3.Solver(); s.add(*pr.pc); s.check(); link = z3.is_true(s.model().eval(st['is_link'], True)); kr.queries += 1
+        rep = ('lsp_workspace_link', (link,))
+        if pr.panic: _add(kr, 'C11/K5/panic', 'panic: ' + pr.panic.msg[:60], {'folder_is_link': link}, rep); return
+        proj = pr.result
+        wrapped = proj.f[0]
+        while isinstance(wrapped, Ref): wrapped = M.deref(wrapped)
+        srcs = wrapped.f[0]
+        docs = []
+        for e in (srcs.items if isinstance(srcs, VecV) else []):
+            k_ = text_of(M, e.f[0]); v_ = e.f[1]
+            while isinstance(v_, Ref): v_ = M.deref(v_)
+            data = v_.f[1].conc() if isinstance(v_, Agg) and isinstance(v_.f[1], Str) else '?'
+            docs.append((k_, data))
+        a_docs = [d for d in docs if d[0] and d[0].endswith('/a.st')]
+        if len(a_docs) != 1 or a_docs[0][1] != 'text in the editor':
+            _add(kr, 'C11/K5/stale-copy-kept%s' % ('/linked-folder' if link else ''), 'workspace folder %s%s, then didOpen of %s/a.st: the project holds %s; the document must be there once, with the editor\'s text' % (
+                 WS, ' (a symbolic link)' if link else '', WS, docs), {'folder_is_link': link, 'documents': docs}, rep)
+        elif len(kr.validate) < 2: kr.validate.append(rep)
+        if len(kr.samples) < 2: kr.samples.append({'folder_is_link': link, 'documents': docs})
+    M.explore(entry, on_path)
+    kr.queries += M.stats['smt']
+    kr.functions = fn_paths(P, M.encoded); kr.models = sorted(M.models_used)
+    kr.stubs = ['std::fs::read_dir lists a.st and b.st under the path it is given; std::fs::canonicalize resolves the folder to another path when the folder is a symbolic link (symbolic choice); Source::try_from_file_id reads "text on disk"; Url::to_file_path / FileId::from_path textual']
+    kr.bounds = 'initialize with one workspace folder (plain directory or symbolic link), then didOpen of a file in it with another text: the project holds that document once, with the text from the editor'
+    kr.exhaustive = True
+
+def _add(kr, role, what, wit, replay):
+    if any(f.role == role for f in kr.findings): return
+    from framework import REPLAYS
+    kr.findings.append(Finding(role, what, wit, replay=REPLAYS[replay[0]](*replay[1]) if replay else None))
+
+@replay_factory('lsp_workspace_link')
+def _replay_workspace_link(link):
+    def rp(ctx):
+        import lspclient, tempfile, os
+        d = tempfile.mkdtemp(dir=ctx.tmp); real = os.path.join(d, 'real'); os.mkdir(real)
+        text = 'TYPE\n  level : (info, critical) := info;\nEND_TYPE\n'
+        open(os.path.join(real, 'a.st'), 'w').write(text)
+        ws = real
+        if link:
+            ws = os.path.join(d, 'link'); os.symlink(real, ws)
+        s = lspclient.LspSession(ctx.ironplcc_path())
+        try:
+            s.initialize(root=ws); uri = 'file://' + ws + '/a.st'
+            s.did_open(uri, text, 1); m = s.diagnostics_for(uri, timeout=10)
+        finally:
+            s.close()
+        if m is None: return True, {'note': 'no publishDiagnostics'}
+        codes = [x.get('code') for x in m['params']['diagnostics']]
+        # the same declarations held twice (disk copy + editor copy) are reported as duplicated names
+        return bool(codes), {'workspace_folder_is_link': link, 'diagnostics_for_a_valid_document': codes}
+    return rp
+
+KERNELS = [k3, k4, k5]
